@@ -22,3 +22,13 @@ package userauth
 //@   property C18
 //@   ensures len(username) > 65535 ==> !ok && !called(tubes.Reliable.Write)
 // (the contract of io.ReadFull is in the prelude: byte-stream model)
+
+// (C18, byte-stream model of the prelude) the decoder reads the layout toBytes produces - a 16-bit big-endian length,
+// then exactly that many bytes of user name - PROVIDED both of its reads succeed: GetInitMsg discards the errors of
+// io.ReadFull, so after a failed read it returns whatever its zero-filled buffers hold (recorded as an observation).
+//@ func GetInitMsg(ch *tubes.Reliable) (s string)
+//@   property C18
+//@   let p = spos[ref(ch)]
+//@   after io.ReadFull#1 let ok1 = resultof(io.ReadFull, err) == nil
+//@   ensures callcount(io.ReadFull) == 2
+//@   ensures ok1 && resultof(io.ReadFull, err) == nil ==> len(s) == int(be16(sbyte(ref(ch), p), sbyte(ref(ch), p + 1))) && bytes(s) == srange(ref(ch), p + 2, len(s))
